@@ -1,0 +1,78 @@
+package accesscontroller
+
+import (
+	"bytes"
+	"encoding/hex"
+	"fmt"
+
+	logac "berty.tech/go-ipfs-log/accesscontroller"
+	"berty.tech/go-ipfs-log/identityprovider"
+	"github.com/libp2p/go-libp2p/core/crypto"
+)
+
+// VerifyEntryIdentity checks that an entry really comes from the identity it
+// names, so that access controllers can decide on the identity's id:
+//   - the entry carries an identity;
+//   - the entry is signed with that identity's key (the signature itself is
+//     checked against the entry's key when the entry is joined);
+//   - for identities of the "orbitdb" type, the identity's own signatures hold:
+//     its key has signed its id, and the key that the id stands for has signed
+//     that key. An identity block naming somebody else's id therefore does not
+//     verify.
+//
+// Identities of other types are left to their provider's VerifyIdentity.
+func VerifyEntryIdentity(entry logac.LogEntry) error {
+	if entry == nil {
+		return fmt.Errorf("entry is not defined")
+	}
+
+	identity := entry.GetIdentity()
+	if identity == nil {
+		return fmt.Errorf("entry has no identity")
+	}
+
+	if signed, ok := entry.(interface{ GetKey() []byte }); ok {
+		if !bytes.Equal(signed.GetKey(), identity.PublicKey) {
+			return fmt.Errorf("entry is not signed with the key of its identity")
+		}
+	}
+
+	if identity.Type != "orbitdb" {
+		return nil
+	}
+
+	return verifyOrbitDBIdentity(identity)
+}
+
+func verifyOrbitDBIdentity(identity *identityprovider.Identity) error {
+	if identity.Signatures == nil || len(identity.Signatures.ID) == 0 || len(identity.Signatures.PublicKey) == 0 {
+		return fmt.Errorf("identity is not signed")
+	}
+
+	identityKey, err := crypto.UnmarshalSecp256k1PublicKey(identity.PublicKey)
+	if err != nil {
+		return fmt.Errorf("invalid identity public key: %w", err)
+	}
+
+	if ok, err := identityKey.Verify([]byte(identity.ID), identity.Signatures.ID); err != nil || !ok {
+		return fmt.Errorf("identity id is not signed by the identity key")
+	}
+
+	rootKeyBytes, err := hex.DecodeString(identity.ID)
+	if err != nil {
+		return fmt.Errorf("invalid identity id: %w", err)
+	}
+
+	rootKey, err := crypto.UnmarshalSecp256k1PublicKey(rootKeyBytes)
+	if err != nil {
+		return fmt.Errorf("invalid identity id: %w", err)
+	}
+
+	// the orbitdb identity provider signs the hex form of publicKey || idSignature
+	signedData := append(append([]byte{}, identity.PublicKey...), identity.Signatures.ID...)
+	if ok, err := rootKey.Verify([]byte(hex.EncodeToString(signedData)), identity.Signatures.PublicKey); err != nil || !ok {
+		return fmt.Errorf("identity key is not signed by the key of the identity id")
+	}
+
+	return nil
+}
